@@ -5,6 +5,11 @@ package c07
 // It speaks what github.com/hashicorp/consul/api expects for KV: GET (200 JSON array / 404),
 // PUT (?cas=) answering "true"/"false", DELETE; X-Consul-* headers.
 //
+// A request is parked only while a scenario is being replayed, when the controller attributes it
+// to the actor it has just let go (a caller, or a Service being constructed — `(s j)` steps). A
+// request that belongs to NO scripted step (the rig's own Service objects being constructed, the
+// generator's evaluation of the constructor) is served at once and recorded: mode `atOnce`.
+//
 // Semantics (the trusted model of Consul, same as Model/RunNumber.lean):
 //   - every applied write/delete gets raft+1 as (Modify)Index;
 //   - PUT ?cas=i succeeds iff (i = 0 ∧ key absent) ∨ (i ≠ 0 ∧ key present ∧ i = ModifyIndex)
@@ -73,6 +78,20 @@ func (s *kvStore) delete(k string) {
 	e.cur = nil
 }
 
+// level = the counter value a key stands for: 0 when absent or not a decimal uint32
+// (Model/RunNumber.lean `Store.level`).
+func (s *kvStore) level(k string) uint64 {
+	e := s.key(k).cur
+	if e == nil {
+		return 0
+	}
+	v, ok := parseU32(string(e.raw))
+	if !ok {
+		return 0
+	}
+	return v
+}
+
 func (s *kvStore) casOk(k string, i uint64) bool {
 	e := s.key(k)
 	if e.cur == nil {
@@ -95,11 +114,62 @@ type response struct {
 	index uint64
 }
 
+// reqRecord = one request the simulator PROCESSED, as the observation prints it: `what` args…
+// (`get C` / `put I BODY ANS` / `delete`), plus the key when it is not the counter key.
+type reqRecord struct {
+	what string
+	args []string
+	key  string
+}
+
+func (r reqRecord) isWrite() bool { return r.what == "put" || r.what == "delete" }
+
+// atOnce = the simulator's second mode. A request that arrives while NO scenario is being
+// replayed (the rig is being built: clients and Service objects are constructed; the generator
+// evaluates a constructor) belongs to no scripted step. Such a request is never parked: it is
+// processed AT ONCE against the store given, and RECORDED — whoever switched the mode on reads the
+// record back. (While a scenario is replayed every request is attributed to the actor the
+// controller has just let go and is processed at the step the schedule names, see exec.go.)
+type atOnce struct {
+	store *kvStore
+	log   []reqRecord
+}
+
 type fakeConsul struct {
 	srv      *httptest.Server
 	arrivals chan *request
 	quit     chan struct{} // closed by shutdown: every parked request is answered 500
 	quitOnce sync.Once
+
+	mu   sync.Mutex
+	auto *atOnce // non-nil: serve at once (see atOnce)
+	// closeConns: answers carry `Connection: close` — set while a scenario constructs Service
+	// objects of its own (every one of them brings a connection pool of its own; nothing offers a
+	// Close), so that no idle connection outlives the case
+	closeConns bool
+}
+
+// serveAtOnce switches the at-once mode on; the returned function switches it off and hands back
+// what was processed meanwhile.
+func (f *fakeConsul) serveAtOnce(store *kvStore) (stop func() []reqRecord) {
+	a := &atOnce{store: store}
+	f.mu.Lock()
+	f.auto = a
+	f.mu.Unlock()
+	return func() []reqRecord {
+		f.mu.Lock()
+		defer f.mu.Unlock()
+		if f.auto == a {
+			f.auto = nil
+		}
+		return a.log
+	}
+}
+
+func (f *fakeConsul) setCloseConns(on bool) {
+	f.mu.Lock()
+	f.closeConns = on
+	f.mu.Unlock()
 }
 
 func newFakeConsul() *fakeConsul {
@@ -130,6 +200,18 @@ func (f *fakeConsul) ServeHTTP(w http.ResponseWriter, r *http.Request) {
 		return
 	}
 	var rp response
+	f.mu.Lock()
+	closeConn := f.closeConns
+	if a := f.auto; a != nil {
+		var what string
+		var args []string
+		rp, what, args = process(a.store, rq)
+		a.log = append(a.log, reqRecord{what: what, args: args, key: rq.key})
+		f.mu.Unlock()
+		f.write(w, rp, closeConn)
+		return
+	}
+	f.mu.Unlock()
 	select {
 	case f.arrivals <- rq:
 		select {
@@ -139,6 +221,13 @@ func (f *fakeConsul) ServeHTTP(w http.ResponseWriter, r *http.Request) {
 		}
 	case <-f.quit:
 		rp = response{code: 500, body: []byte("simulator shut down")}
+	}
+	f.write(w, rp, closeConn)
+}
+
+func (f *fakeConsul) write(w http.ResponseWriter, rp response, closeConn bool) {
+	if closeConn {
+		w.Header().Set("Connection", "close")
 	}
 	w.Header().Set("Content-Type", "application/json")
 	w.Header().Set("X-Consul-Index", strconv.FormatUint(rp.index, 10))
